@@ -107,9 +107,10 @@ func (k c06) build(c *mon.Ctx, workload string, i int64) (stmts []*gt.T, layouts
 	switch workload {
 	case "pairs":
 		stmts = []*gt.T{c06Pair(i)}
-		layouts = []*gt.Layout{nil, {R: c.Sub("lay"), Breaks: true}}
+		layouts = []*gt.Layout{nil, {R: c.Sub("lay"), Breaks: true}, {R: c.Sub("lay2"), Compact: true}}
 	default:
 		s := gen.NewSyntax(c.R)
+		s.HexSpell = true
 		ed, d := 3, 2
 		if c.Tier == "thorough" {
 			ed, d = 3+c.R.Intn(3), 2+c.R.Intn(2)
@@ -122,7 +123,7 @@ func (k c06) build(c *mon.Ctx, workload string, i int64) (stmts []*gt.T, layouts
 		layouts = []*gt.Layout{nil}
 		for j := 0; j < nl; j++ {
 			layouts = append(layouts, &gt.Layout{R: c.Sub(fmt.Sprint("lay", j)), Breaks: true,
-				Extended: workload == "extended-layout", Multibyte: j%2 == 1})
+				Extended: workload == "extended-layout", Multibyte: j%2 == 1, Compact: j >= 1})
 		}
 	}
 	return gt.ParenthesizeStmts(stmts), layouts
